@@ -31,8 +31,9 @@ ENCODED = [_M + m for m in ("__init__", "_convertOther", "__eq__", "__lt__", "__
 BOUNDS = {"quick": {"maxbits": 16}, "thorough": {"maxbits": 64}}
 B = {}
 BOUNDS_TEXT = ("SMT: unbounded integer a, b, n; every serialBits in 1..maxbits concretely AND all serialBits >= 1 "
-               "at once (2**(serialBits-1) abstracted to any integer H >= 1); CrossHair: serialBits in "
-               "{1,2,3,8}, a, b, n any integer")
+               "at once (2**(serialBits-1) abstracted to any integer H >= 1); the real constructor is executed for "
+               "every width 1..64 and its three constants compared with 2**bits, 2**(bits-1), 2**(bits-1)-1; "
+               "CrossHair: serialBits in {1,2,3,8,55,63,64}, a, b, n any integer")
 OUTSIDE = ["serialBits <= 0 (2 ** (serialBits - 1) is then a float) and non-integer operands",
            "operands of different serialBits / non-SerialNumber operands (TypeError / NotImplemented paths)",
            "__str__, __hash__, RFC 4034 date conversion",
@@ -205,11 +206,33 @@ def _globs(smt):
     return g
 
 
+FALLBACK = set()      # (attribute, reason): constructor assignments taken from the REAL constructor
+
+
+def _attr_hook(tr, obj, attr, env, why):
+    """`self.<attr> = <untranslatable expression>` in SerialNumber.__init__ (floats, '/', ...): for a
+    concrete width use the value the REAL constructor computes, provided it does not depend on `number`"""
+    bits = env.get("serialBits")
+    if obj.cls.name != "SerialNumber" or isinstance(bits, bool) or not isinstance(bits, int) or bits < 1:
+        return None
+    vals = []
+    for num in (0, 1, 2 ** bits - 1):
+        try:
+            vals.append(getattr(SerialNumber(num, bits), attr))
+        except Exception:  # noqa
+            return None
+    v = vals[0]
+    if isinstance(v, bool) or not isinstance(v, int) or any(x != v or type(x) is not int for x in vals):
+        return None
+    FALLBACK.add((attr, why))
+    return v
+
+
 def _mk(smt, z, allwidths):
     """translator + variables for one back end"""
     a, b = z.Int("a"), z.Int("b")
     if not allwidths:
-        return smt.Translator(z, _globs(smt)), a, b, None, None, []
+        return smt.Translator(z, _globs(smt), attr_hook=_attr_hook), a, b, None, None, []
     bits, half = z.Int("bits"), z.Int("H")
 
     def hook(tr, base, exp):
@@ -225,7 +248,8 @@ def _mk(smt, z, allwidths):
 
 
 def _code_term(tr, z, outs):
-    """one Int term for a probe/obligation result: bool -> 0/1, int -> 10+v (v >= 0), raise -> -(2+k)"""
+    """one Int term for a probe/obligation result: bool -> 0/1, int -> 10+v (v >= 0), raise -> -(2+k),
+    untranslatable construct -> -1000"""
     names = []
     term = z.IntVal(-1)
     for o in reversed(outs):
@@ -239,8 +263,10 @@ def _code_term(tr, z, outs):
             if o.val not in names:
                 names.append(o.val)
             v = z.IntVal(-(2 + names.index(o.val)))
+        elif o.kind == "unsupported":
+            v = z.IntVal(-1000)
         else:
-            v = z.IntVal(-1)      # unsupported / NotImplemented / object
+            v = z.IntVal(-1)      # NotImplemented / object
         term = z.If(tr.conj(o.pc), v, term)
     return term, names
 
@@ -258,24 +284,74 @@ def _real_code(fn, a, b, bits, names):
     return -1
 
 
-def _validate(smt, z, widths, margin):
-    """translated terms vs the real class on every operand pair of the given widths"""
+def _validate(smt, z, widths, margin, untranslatable):
+    """translated terms vs the real class on every operand pair of the given widths.  A function whose
+    translation runs into an unsupported construct on a concrete input is recorded in `untranslatable`
+    (its obligations become 'unknown'); any other disagreement is a translator error."""
     n = 0
     for w in widths:
         tr, a, b, _, _, _ = _mk(smt, z, False)
         for fn in PROBES + CMP_OBS + ADD_OBS:
+            if fn.__name__ in untranslatable:
+                continue
             term, names = _code_term(tr, z, tr.run(fn.__name__, [a, b, w]))
             rng = range(-margin, 2 ** w + margin)
             for ia in rng:
+                if fn.__name__ in untranslatable:
+                    break
                 ta = z.substitute(term, (a, z.IntVal(ia)))
                 for ib in rng:
                     got = z.simplify(z.substitute(ta, (b, z.IntVal(ib))))
+                    if z.is_int_value(got) and got.as_long() == -1000:
+                        untranslatable[fn.__name__] = "bits=%d a=%d b=%d" % (w, ia, ib)
+                        break
                     want = _real_code(fn, ia, ib, w, names)
                     if not z.is_int_value(got) or got.as_long() != want:
                         return n, "%s(%d, %d, bits=%d): translated term gives %s, real class gives %s" % (
                             fn.__name__, ia, ib, w, got, want)
                     n += 1
     return n, None
+
+
+def replay_consts(bits):
+    """the three ring constants the REAL constructor computes for this width"""
+    s = SerialNumber(0, bits)
+    return (s._modulo == 2 ** bits and s._halfRing == 2 ** (bits - 1) and s._maxAdd == 2 ** (bits - 1) - 1
+            and type(s._halfRing) is int and type(s._maxAdd) is int and type(s._modulo) is int)
+
+
+def _check_constants(maxw):
+    """execute the real constructor for every width; -> (number checked, [bad widths], cex or None)"""
+    bad = []
+    for w in range(1, maxw + 1):
+        try:
+            ok = replay_consts(w)
+        except Exception:  # noqa
+            ok = False
+        if not ok:
+            bad.append(w)
+    if not bad:
+        return maxw, bad, None
+    # a behavioural witness on the real class at a boundary value, smallest width first
+    for w in bad:
+        h = 2 ** (w - 1)
+        for n in (h, h - 1, h + 1, 1, 2 ** w - 1):
+            for a in (0, 1, h, 2 ** w - 1):
+                try:
+                    ok = replay_add(w, a, n)
+                except Exception:  # noqa
+                    ok = False
+                if not ok:
+                    return maxw, bad, ("replay_add", {"bits": w, "a": a, "n": n})
+        for b in (h, h - 1, h + 1, 0, 1):
+            for a in (0, 1, h):
+                try:
+                    ok = replay_cmp(w, a, b)
+                except Exception:  # noqa
+                    ok = False
+                if not ok:
+                    return maxw, bad, ("replay_cmp", {"bits": w, "a": a, "b": b})
+    return maxw, bad, ("replay_consts", {"bits": bad[0]})
 
 
 def smt_proof(tier):
@@ -288,14 +364,21 @@ def smt_proof(tier):
     shape_bad = _shape_check()
     res["samples"].append({"constructor_shape_check": "ok" if not shape_bad else "differs: %s" % shape_bad})
 
-    # translator validation (every run)
-    nval, err = _validate(smt, z3, range(1, 6), 2)
+    # (1) the constants of the REAL constructor, executed for every width 1..max(64, maxbits)
+    nconst, bad_widths, const_cex = _check_constants(max(64, maxbits))
+    res["constants_checked_widths"] = nconst
+    res["samples"].append({"real_constructor_constants": "ok for bits 1..%d" % nconst if not bad_widths
+                           else "WRONG for bits %s" % (bad_widths[:12],)})
+
+    # (2) translator validation (every run); untranslatable constructs degrade to 'unknown'
+    untranslatable = {}
+    nval, err = _validate(smt, z3, range(1, 6), 2, untranslatable)
     if err is None:
-        n2, err = _validate(smt, cv, range(1, 3), 1)
+        n2, err = _validate(smt, cv, range(1, 3), 1, untranslatable)
         nval += n2
     res["validation_cases"] = nval
     res["samples"].append({"translator_validation_cases": nval})
-    if err is not None:
+    if err is not None and const_cex is None:
         res["status"] = "error"
         res["error"] = "translator validation failed: " + err
         return res
@@ -303,20 +386,33 @@ def smt_proof(tier):
     solver_time = 0.0
     failures = []       # (encoding, obligation, verdicts, cex or None)
     encodings = [("bits=%d" % w, w) for w in range(1, maxbits + 1)] + [("all widths", None)]
+    allw = "proved"
     for label, w in encodings:
         for ob in CMP_OBS + ADD_OBS:
             res["obligations"] += 1
             verdicts = {}
             cex = None
             for zname, z in (("z3", z3), ("cvc5", cv)):
+                if err is not None or ob.__name__ in untranslatable:
+                    verdicts[zname] = "unknown: untranslatable (%s)" % (err or untranslatable[ob.__name__])
+                    continue
                 tr, a, b, bits, half, assume = _mk(smt, z, w is None)
                 try:
                     outs = tr.run(ob.__name__, [a, b, w if w is not None else bits])
                     viol = tr.violation(outs)
+                    unsup, why = tr.unsupported(outs)
                 except smt.Unsupported as e:
                     verdicts[zname] = "unknown: untranslatable (%s)" % e
                     continue
                 s0 = time.time()
+                if unsup is not None:
+                    vu, _m = smt.check(z, assume + [unsup])
+                    res["queries"] += 1
+                    if vu != "unsat":
+                        # a reachable path runs through code the translator cannot model: no verdict
+                        verdicts[zname] = "unknown: untranslatable (%s)" % "; ".join(why)[:300]
+                        solver_time += time.time() - s0
+                        continue
                 v, model = smt.check(z, assume + [viol])
                 res["queries"] += 1
                 if v == "sat" and w is None:
@@ -337,15 +433,20 @@ def smt_proof(tier):
                 res["discharged"] += 1
             else:
                 failures.append((label, ob, verdicts, cex))
+                if w is None:
+                    allw = "unknown" if all(str(v).startswith("unknown") for v in verdicts.values()) else "failed"
             if label in ("bits=1", "bits=%d" % maxbits, "all widths") and ob in (ob_trichotomy, ob_add_value):
                 res["samples"].append({"encoding": label, "obligation": ob.__name__, "verdicts": verdicts})
     res["solver_time_s"] = round(solver_time, 2)
     res["wall_custom_s"] = round(time.time() - t0, 2)
-    res["samples"] = res["samples"][:2] + res["samples"][-1:] + res["samples"][2:-1]
-    if not failures:
-        res["status"] = "confirmed"
-        return res
-    res["failures"] = [{"encoding": l, "obligation": o.__name__, "verdicts": v, "cex": c} for l, o, v, c in failures][:20]
+    res["all_widths_encoding"] = allw
+    res["constructor_values_taken_from_real_code"] = sorted("%s (%s)" % f for f in FALLBACK)
+    res["samples"].append({"all_widths_encoding": allw,
+                           "constructor_values_taken_from_real_code": res["constructor_values_taken_from_real_code"][:4]})
+    res["samples"] = res["samples"][:3] + res["samples"][-2:] + res["samples"][3:-2]
+    if failures:
+        res["failures"] = [{"encoding": l, "obligation": o.__name__, "verdicts": v, "cex": c}
+                           for l, o, v, c in failures][:20]
     with_cex = [f for f in failures if f[3] is not None]
     if with_cex:
         # prefer the smallest width (the most readable counterexample)
@@ -358,6 +459,14 @@ def smt_proof(tier):
             res["replay_harness"] = "replay_add"
             res["cex"] = {"bits": cex["bits"], "a": cex["a"], "n": cex["b"]}
         res["refuted_obligation"] = "%s [%s] %s" % (ob.__name__, label, verdicts)
+    elif const_cex is not None:
+        res["status"] = "refuted"
+        res["replay_harness"], res["cex"] = const_cex
+        res["refuted_obligation"] = "real constructor constants wrong for bits %s" % (bad_widths[:12],)
+    elif not failures:
+        res["status"] = "confirmed"
+    else:
+        res["status"] = "unknown"
     return res
 
 
@@ -367,8 +476,11 @@ CUSTOM = [smt_proof]
 
 # ---- E1: the same obligations executed by CrossHair on the real class --------------------------------
 
+XH_BITS = (1, 2, 3, 8, 55, 63, 64)
+
+
 def _conc_bits(bits):
-    for k in (1, 2, 3, 8):
+    for k in XH_BITS:
         if bits == k:
             return k
     return 8
@@ -376,7 +488,7 @@ def _conc_bits(bits):
 
 def xh_cmp(bits: int, a: int, b: int) -> bool:
     """
-    pre: bits == 1 or bits == 2 or bits == 3 or bits == 8
+    pre: bits in XH_BITS
     post: _
     """
     k = _conc_bits(bits)
@@ -387,7 +499,7 @@ def xh_cmp(bits: int, a: int, b: int) -> bool:
 
 def xh_add(bits: int, a: int, n: int) -> bool:
     """
-    pre: bits == 1 or bits == 2 or bits == 3 or bits == 8
+    pre: bits in XH_BITS
     post: _
     """
     k = _conc_bits(bits)
@@ -396,13 +508,30 @@ def xh_add(bits: int, a: int, n: int) -> bool:
     return replay_add(k, a, n)
 
 
-_SH = [("bits == %d" % k,) for k in (1, 2, 3, 8)]
+def xh_consts(bits: int) -> bool:
+    """
+    pre: 1 <= bits <= 64
+    post: _
+    """
+    k = 64
+    for w in range(1, 65):
+        if bits == w:
+            k = w
+            break
+    cover()
+    return replay_consts(k)
+
+
+_SH = [("bits == %d" % k,) for k in XH_BITS]
 HARNESSES = [Harness(xh_cmp, shards=_SH, timeout={"quick": 60, "thorough": 300}),
-             Harness(xh_add, shards=_SH, timeout={"quick": 60, "thorough": 300})]
+             Harness(xh_add, shards=_SH, timeout={"quick": 60, "thorough": 300}),
+             Harness(xh_consts, timeout={"quick": 60, "thorough": 300})]
 
 # vectors from twisted/names/test/test_rfc1982.py (SerialNumber2BitTests / 32 bit cases, scaled)
 VECTORS = {
     "xh_cmp": [(2, 0, 1), (2, 0, 2), (2, 3, 0), (2, 1, 3), (8, 0, 128), (8, 255, 0), (8, 200, 72), (1, 0, 1),
-               (3, 7, 3)],
-    "xh_add": [(2, 3, 1), (2, 0, 2), (2, 1, 0), (8, 255, 127), (8, 1, 128), (1, 1, 0), (1, 0, 1), (3, 6, 3)],
+               (3, 7, 3), (64, 0, 2 ** 63), (64, 2 ** 64 - 1, 0), (55, 5, 2 ** 54 + 5), (63, 1, 2 ** 62)],
+    "xh_add": [(2, 3, 1), (2, 0, 2), (2, 1, 0), (8, 255, 127), (8, 1, 128), (1, 1, 0), (1, 0, 1), (3, 6, 3),
+               (64, 2 ** 64 - 1, 2 ** 63 - 1), (64, 7, 12345), (55, 0, 2 ** 54 - 1), (63, 2 ** 62, 2 ** 62 - 1)],
+    "xh_consts": [(1,), (32,), (55,), (64,)],
 }
